@@ -130,10 +130,13 @@ def confirm(name):
 
 
 def detect(name, tier="quick", extra_env=None):
+    # "C01-8@C06": run the check of another property against the change
+    name, _, other = name.partition("@")
     d = os.path.join(SEEDED, name)
     patch = os.path.join(d, "patch.diff")
     meta = load_meta(d)
-    prop = meta.get("property") or name.split("-")[0]
+    prop = other or meta.get("property") or name.split("-")[0]
+    tkey = tier + ("@" + other if other else "")
     st = sh("git -C /repo status --porcelain --untracked-files=no")[1]
     if st.strip():
         raise SystemExit("/repo has uncommitted changes; refusing\n" + st)
@@ -153,13 +156,13 @@ def detect(name, tier="quick", extra_env=None):
                                   "HARNESS"))]
         lines += [l for l in out.splitlines() if l.startswith("KNOWN")]
         caught = rc == 1 and any(l.startswith("VIOLATION") for l in lines)
-        meta.setdefault("detection", {})[tier] = {
+        meta.setdefault("detection", {})[tkey] = {
             "caught": caught, "rc": rc, "wall_s": round(time.time() - t0, 1),
             "lines": [l[:300] for l in lines[:4]],
             "verif_commit": sh("git rev-parse --short HEAD",
                                cwd=VERIF)[1].strip()}
         save_meta(d, meta)
-        print(name, tier, "CAUGHT" if caught else f"MISSED rc={rc}",
+        print(name, tkey, "CAUGHT" if caught else f"MISSED rc={rc}",
               [l[:200] for l in lines[:2]])
         if not caught:
             print(out[-800:])
@@ -194,6 +197,10 @@ def main(argv):
         for d in sorted(glob.glob(SEEDED + "/*")):
             m = load_meta(d)
             det = m.get("detection", {}).get("quick", {})
+            if not det.get("caught"):
+                for k_, v_ in m.get("detection", {}).items():
+                    if k_.startswith("quick@") and v_.get("caught"):
+                        det = dict(v_, by=k_[6:])
             sig = ""
             for l in det.get("lines", []):
                 if "sig=" in l:
@@ -204,6 +211,7 @@ def main(argv):
                   f"{m.get('needs', '').replace('|', '/')[:200]} | "
                   f"{'yes' if m.get('confirmed', {}).get('ok') else 'NO'} | "
                   f"{'yes' if det.get('caught') else 'no'}"
+                  f"{' (by the ' + det['by'] + ' check)' if det.get('by') else ''}"
                   f"{': `' + sig + '`' if sig else ''} |")
     elif cmd == "table":
         for d in sorted(glob.glob(SEEDED + "/*")):
